@@ -18,7 +18,7 @@ from regexlib import gen_tables, split_range
 from probe import run_probe
 import random
 
-FIELDS = ["slen", "len", "code", "chr", "off", "next", "prev", "beg", "end", "chop", "sub"]
+FIELDS = ["slen", "len", "code", "chr", "off", "next", "prev", "beg", "end", "chop", "sub", "subend"]
 
 
 def scalar_values(ctx):
